@@ -373,6 +373,9 @@ CLAUSES = {
     11: "removal schedule: wrong consumers processed (first min(200, due)) or a due stopped consumer was not deleted",
     12: "raw store keys of a consumer do not match its records",
     13: "a consumer with an established channel was deleted but the channel was not closed",
+    14: "EndBlock returned an error (chain halt)",
+    15: "an operation panicked (chain halt)",
+    16: "a stopped consumer is not scheduled for removal under its removal time",
 }
 
 
